@@ -15,7 +15,8 @@ Transition rules (one line each):
 * `dismiss k`  (`RemoveKey`, a key dropped by `SyncKeys`, last `Release`, `KeyedRefCount.RemoveKey`):
   `present` becomes `absent` (no delay, or the routine has failed) or `leaving epoch`; `leaving` and
   `absent` stay;
-* `renew k`    (`ResetRoutine`): a key in the set gets new data and is `present`
+* `renew k`    (`ResetRoutine`, when its condition functions — if any — accept the key's data): a key in the
+  set gets new data and is `present`
   (the code forgets a pending delayed removal here: the old record's timer no longer matches);
 * `advance` ends the epoch; `expire k` (the callback of the removal timer of `k`, any time after the
   `advance` that follows its arming, unless the key was requested again): `leaving` becomes `absent`.
@@ -100,6 +101,10 @@ def specRelease (a : ASt) (failed : Nat → Bool) (r : Nat) : ASt :=
     if liveCount a1 k == 0 then dismiss a1 (failed k) k else a1
   | _ => a
 
+/-- the condition functions of `ResetRoutine` & co. accept key `k` (a key that is not in the set is not
+asked about) -/
+def specMatch (a : ASt) (cs : List Cond) (k : Nat) : Bool := !a.inSet k || condsMatch cs k (a.st k).data
+
 /-- the abstract transition of an API call -/
 def specStep (a : ASt) (failed : Nat → Bool) : Op → ASt
   | .setKey k _ => request a k
@@ -107,10 +112,11 @@ def specStep (a : ASt) (failed : Nat → Bool) : Op → ASt
   | .syncKeys ks _ =>
     { a with st := fun k => if ks.contains k then reqSt a k else disSt a (failed k) k
              nctor := fun k => if ks.contains k then reqCtor a k else a.nctor k }
-  | .getKey _ | .getKeys | .getKeysWithData | .restartRoutine _ | .restartAll => a
-  | .resetRoutine k => renew a k
-  | .resetAll => { a with st := fun k => renSt a k, nctor := fun k => renCtor a k }
-  | .setContext c _ => { a with hasCtx := c.isSome }
+  | .getKey _ | .getKeys | .getKeysWithData | .restartRoutine _ _ | .restartAll _ => a
+  | .resetRoutine k cs => if specMatch a cs k then renew a k else a
+  | .resetAll cs => { a with st := fun k => if specMatch a cs k then renSt a k else a.st k,
+                             nctor := fun k => if specMatch a cs k then renCtor a k else a.nctor k }
+  | .setContext c _ => { a with hasCtx := isLive c }
   | .addKeyRef k => { request a k with live := a.live ++ [some k] }
   | .release r => specRelease a failed r
   | .rcRemoveKey k =>
@@ -126,11 +132,12 @@ def SpecOut (a a' : ASt) : Op → Res → Prop
   | .getKey k, r => r = .dataExisted (a.st k).data (a.inSet k)
   | .getKeys, r => ∃ ks, r = .keys ks ∧ ∀ k, k ∈ ks ↔ a.inSet k = true
   | .getKeysWithData, r => ∃ kd, r = .keysData kd ∧ ∀ k d, (k, d) ∈ kd ↔ (a.inSet k = true ∧ d = (a.st k).data)
-  | .resetRoutine k, r => r = .existedReset (a.inSet k) (a.inSet k)
-  | .restartRoutine k, r => r = .existedReset (a.inSet k) (a.inSet k && a.hasCtx)
-  | .resetAll, r => ∃ ks : List Nat, ks.Nodup ∧ (∀ k, k ∈ ks ↔ a.inSet k = true) ∧ r = .counts ks.length ks.length
-  | .restartAll, r => ∃ ks : List Nat, ks.Nodup ∧ (∀ k, k ∈ ks ↔ a.inSet k = true) ∧
-      r = .counts (if a.hasCtx then ks.length else 0) ks.length
+  | .resetRoutine k cs, r => r = .existedReset (a.inSet k) (a.inSet k && specMatch a cs k)
+  | .restartRoutine k cs, r => r = .existedReset (a.inSet k) (a.inSet k && a.hasCtx && specMatch a cs k)
+  | .resetAll cs, r => ∃ ks : List Nat, ks.Nodup ∧ (∀ k, k ∈ ks ↔ a.inSet k = true) ∧
+      r = .counts (ks.filter (specMatch a cs)).length ks.length
+  | .restartAll cs, r => ∃ ks : List Nat, ks.Nodup ∧ (∀ k, k ∈ ks ↔ a.inSet k = true) ∧
+      r = .counts (if a.hasCtx then (ks.filter (specMatch a cs)).length else 0) ks.length
   | .setContext _ _, r => r = .unit
   | .addKeyRef k, r => r = .ref a.live.length (a'.st k).data (a.inSet k)
   | .release _, r => r = .unit
@@ -149,7 +156,7 @@ def absRef (x : RefSt) : Option Nat := if x.listed then some x.key else none
 
 def abs (s : St) : ASt where
   delay := delayOn s
-  hasCtx := s.ctx.isSome
+  hasCtx := isLive s.ctx
   epoch := s.epoch
   st := fun k => absKey (s.key k)
   nctor := s.ctors
@@ -171,6 +178,7 @@ def specEv (a : ASt) (s : St) : Ev → ASt
   | .advance => specAdvance a
   | .timerRemove k => expire a k
   | .config c => { a with delay := c.delay }
+  | .cancelroot => { a with hasCtx := false }
   | _ => a
 
 end UtilModel.Keyed
